@@ -193,6 +193,10 @@ impl Sys for Sys11 {
             }
         }
         v.push(Ev::Tick(1500));
+        // read-only API calls between the others (not twice in a row: the second one cannot differ)
+        if !matches!(self.s.log.last(), Some(Item::Api(Ev::Query, _))) {
+            v.push(Ev::Query);
+        }
         v
     }
     fn apply(&mut self, ev: &Ev) {
